@@ -110,7 +110,51 @@ fn input_for(probe: &str, depth: usize) -> String {
     }
 }
 
+/// C12 "defined exactly once": a second `define` is refused (panics) AND leaves the first definition in place — for the handle
+/// it was called on, for handles cloned before and after, and for the partner of a mutual recursion
+fn define_twice() -> String {
+    let mut a = Recursive::declare();
+    let early = a.clone();
+    a.define(a.clone().delimited_by(just('('), just(')')).map(|d: usize| d + 1).or(just::<_, &str, Ex>('x').to(0usize)));
+    let mut again = a.clone();
+    let refused = std::panic::catch_unwind(std::panic::AssertUnwindSafe(|| {
+        again.define(just::<_, &str, Ex>('y').to(99usize));
+    }))
+    .is_err();
+    let mut bad = Vec::new();
+    for (inp, want) in [("x", Some(0usize)), ("((x))", Some(2)), ("y", None), ("(y)", None), ("", None)] {
+        for (nm, h) in [("defined", &a), ("cloned-before", &early), ("redefined", &again)] {
+            let got = h.parse(inp).into_output();
+            if got != want {
+                bad.push(format!("{nm}:{inp:?}:{got:?}-expected-{want:?}"));
+            }
+        }
+    }
+    // mutual recursion: redefining one half must not change what the other half sees
+    let mut m = Recursive::declare();
+    let mut n = Recursive::declare();
+    m.define(just::<_, &str, Ex>('a').ignore_then(n.clone()).map(|d: usize| d + 1).or(just('x').to(0usize)));
+    n.define(just::<_, &str, Ex>('b').ignore_then(m.clone()).map(|d: usize| d + 1).or(just('y').to(0usize)));
+    let mut n2 = n.clone();
+    let refused2 = std::panic::catch_unwind(std::panic::AssertUnwindSafe(|| {
+        n2.define(just::<_, &str, Ex>('z').to(77usize));
+    }))
+    .is_err();
+    for (inp, want) in [("abx", Some(2usize)), ("ay", Some(1)), ("az", None), ("x", Some(0))] {
+        let got = m.parse(inp).into_output();
+        if got != want {
+            bad.push(format!("mutual:{inp:?}:{got:?}-expected-{want:?}"));
+        }
+    }
+    format!("define_twice refused={} {}", refused && refused2, if bad.is_empty() { "first-definition-kept".to_string() } else { bad.join(",") })
+}
+
 pub fn main() {
+    if std::env::args().nth(1).as_deref() == Some("define_twice") {
+        std::panic::set_hook(Box::new(|_| {}));
+        println!("{}", define_twice());
+        return;
+    }
     let args: Vec<String> = std::env::args().collect();
     let probe = args.get(1).cloned().unwrap_or_default();
     let depth: usize = args.get(2).and_then(|s| s.parse().ok()).unwrap_or(1000);
